@@ -18,6 +18,8 @@ sys.path.insert(0, os.path.dirname(os.path.abspath(__file__)))
 import vlib as V
 import leaf_engine as LE
 import mach_engine as ME
+import engine_c10 as E10
+import engine_c15 as E15
 
 TRUSTED_BASE = [
     "Lean 4.33.0 kernel (leanchecker re-check in the thorough tier)",
@@ -39,7 +41,7 @@ prop('C18', module='Hfsm.Props.C18', engine='leaf')
 prop('C19', module='Hfsm.Props.C19', engine='leaf')
 prop('C07', module='Hfsm.Props.C07', engine='leaf')
 prop('C20', module='Hfsm.Props.C20', engine='leaf')
-prop('C17', module='Hfsm.Props.C17', engine='c17')
+prop('C17', module='Hfsm.Props.C17', more_modules=['Hfsm.Props.C17Flat'], engine='c17')
 # whole-machine properties: generated programs, transcripts, model replay, per-property oracle
 for _p in ('C01', 'C02', 'C03', 'C04', 'C05', 'C06', 'C08', 'C09', 'C10', 'C11', 'C12', 'C13', 'C14', 'C15', 'C16'):
     prop(_p, module='Hfsm.Props.' + _p, engine='mach')
@@ -62,6 +64,12 @@ def main():
 
     # 1+2: proof obligations
     proof = V.proof_status(cfg['module'])
+    for extra in cfg.get('more_modules', []):
+        p2 = V.proof_status(extra)
+        proof['obligations'] += p2['obligations']
+        proof['discharged'] += p2['discharged']
+        proof['broken'] += [b for b in p2['broken'] if b not in proof['broken']]
+        proof['theorems'] += p2['theorems']
     lean = V.lean_state()
 
     # 3+4: correspondence and oracle
@@ -71,6 +79,24 @@ def main():
         res = LE.run_c17(tier, a.seed)
     else:
         res = ME.run(pid, tier, a.seed)
+        # differential engines on the real code (DESIGN §7 C10, C15; allocation monitor for C11)
+        extra = None
+        if pid == 'C10':
+            extra = E10.run(tier, a.seed)
+            rej10 = extra.get('rejections', [])
+        elif pid == 'C11':
+            extra = E10.run(tier, a.seed)
+            rej10 = extra.get('c11_rejections', [])
+        elif pid == 'C15':
+            extra = E15.run(tier, a.seed)
+            rej10 = extra.get('rejections', [])
+        if extra is not None:
+            res['rejections'] = list(res.get('rejections', [])) + list(rej10)
+            res['broken'] = list(res.get('broken', [])) + list(extra.get('broken', []))
+            res.setdefault('coverage', {})['differential'] = extra.get('coverage', {})
+            if pid == 'C11':
+                res['coverage']['allocation_monitor'] = extra.get('alloc', {})
+            res['assumptions'] = list(res.get('assumptions', [])) + list(extra.get('assumptions', []))
 
     # thorough: independent re-check of the compiled property module
     checker_cmd = 'cd lean && lake build && lake env lean Audit.lean   # `#print axioms`-equivalent on every theorem of %s' % cfg['module']
